@@ -27,7 +27,7 @@ func gen(t *rapid.T) Case {
 	n := rapid.IntRange(1, 5).Draw(t, "hashes")
 	ops := rapid.SliceOfN(rapid.Custom(func(t *rapid.T) Op {
 		return Op{Kind: rapid.IntRange(0, 3).Draw(t, "k"), H: rapid.IntRange(0, n-1).Draw(t, "h")}
-	}), 0, 60).Draw(t, "ops")
+	}), 6, 60).Draw(t, "ops")
 	return Case{Hashes: n, Ops: ops}
 }
 
@@ -159,7 +159,7 @@ func run(c Case) pbt.Verdict {
 func TestProp(t *testing.T) {
 	pbt.Main(t, pbt.Spec{
 		ID:   "C20",
-		Rule: "random add/next/ready/eject sequences (<=60 ops) over 1-5 info hashes, Add only when the model says the hash is absent (documented precondition); lock-step FIFO+pending model, drained at the end; non-trivial = at least one eject of a queued or in-flight torrent and >=2 Next calls; distinct by case hash",
+		Rule: "random add/next/ready/eject sequences (6-60 ops) over 1-5 info hashes, Add only when the model says the hash is absent (documented precondition); lock-step FIFO+pending model, drained at the end; non-trivial = at least one eject of a queued or in-flight torrent and >=2 Next calls; distinct by case hash",
 		Assumptions: []string{"reference model of the queue written from the property statement", "Add is never issued for a torrent already queued or in flight (documented as undefined)"},
 		Parts: []pbt.Part{pbt.NewPart("queue", 1, gen, run)},
 	})
